@@ -967,6 +967,10 @@ class ShortIntegrationFrameComputer(LinearFilterBankFrameComputer):
         # given a buffer, compute its fourier transform. Always copies
         # the data
         assert len(buff) <= self._dft_size
+        if np.issubdtype(buff.dtype, np.floating):
+            # numpy's fft preserves the precision of its input, but everything
+            # downstream is double precision
+            buff = buff.astype(np.float64, copy=False)
         if config.USE_FFTPACK and self._real:
             from scipy import fftpack
 
